@@ -364,8 +364,7 @@ func cronMain(args []string) {
 				defer func() {
 					if x := recover(); x != nil {
 						stats["impl:panic"]++
-						msg := strings.ReplaceAll(strings.ReplaceAll(fmt.Sprint(x), "*)", "* )"), "(*", "( *")
-						g.out = append(g.out, "(CPeek, mkCObs CRUnit timer_idle) (* the store panicked: "+msg+" *)")
+						g.out = append(g.out, "(CPeek, mkCObs CRUnit timer_idle) "+cq.Comment("the store panicked: "+fmt.Sprint(x)))
 					}
 				}()
 				for i := 0; i < *length; i++ {
